@@ -52,6 +52,9 @@ GHOST = {
     'seg_data_ok': 'Bool',       # each carries exactly the bundle octets of its range, with this transfer's id and total
     # D-Bus signals emitted (names only; argument conformance is an obligation at each emission)
     'u_rx_finished': 'List[Str]',     # transfer ids (as text) announced by recv_bundle_finished, in order
+    # Agent._recv_datagram: per message of the datagram, was it handled on its own as its first octet says
+    'u_dg_ok': 'Bool', 'u_p0': 'Int', 'u_n0': 'Int', 'u_m0': 'Int',
+    'u_maps': 'Int',      # number of extension maps handed to Agent._recv_ext_map
 }
 
 
@@ -126,6 +129,36 @@ EXTERNS.update(extmodels.GLIB)
 EXTERNS.update({'copy.copy': copy_copy, 'io.BytesIO': bytesio_new})
 EXTERNS.update({'cbor2.dumps': cbor_dumps, 'portion.closedopen': portion_closedopen, 'portion.empty': portion_empty})
 
+
+def _item_len():
+    return z3.Function('cbor_item_len', TBytes.sort(), z3.IntSort(), z3.IntSort())
+
+
+def cbor_load(eng, args, kwargs):
+    '''cbor2.load(reader): consumes exactly one CBOR item from the current position (item_len(content, position)
+    octets, at least one, within the buffer) and returns it as an opaque value; a truncated or malformed item raises'''
+    from pyvc.types import TRef
+    buf = args[0]
+    content = eng.read_heap(buf, ('BytesIO', 'content'), TBytes)
+    pos = eng.read_heap(buf, ('BytesIO', 'pos'), TInt)
+    ln = _item_len()(content.z, pos.z)
+    if eng.branch(z3.Not(z3.And(ln > 0, pos.z + ln <= z3.Length(content.z)))):
+        eng.py_raise('cbor2.CBORDecodeError')
+    eng.write_heap(buf, ('BytesIO', 'pos'), TInt, mk_int(pos.z + ln))
+    return fresh(TAny('cbor'), 'item')
+
+
+def buffered_reader(eng, args, kwargs):
+    '''io.BufferedReader(raw): reads through to the in-memory source (same content, same position)'''
+    return args[0]
+
+
+def sb_item_len(eng, data, pos):
+    return mk_int(_item_len()(data.z, pos.z))
+
+
+EXTERNS.update({'cbor2.load': cbor_load, 'io.BufferedReader': buffered_reader})
+
 SPECBUILTINS = {'hsize': sb_hsize, 'interval': sb_interval, 'set_union': sb_set_union,
                 'empty_interval': lambda eng: portion_empty(eng, [], {}),
                 'addr_text': lambda eng, a: str_of_any(eng, V(a.t.inner, a.t.val(a.z)) if isinstance(a.t, TOpt) else a)}
@@ -137,8 +170,10 @@ def cb_signal(eng, name, args):
         eng.st.ghost['u_rx_finished'] = V(g.t, L.l_append(g.t, g.z, args[0].z))
 
 
+SPECBUILTINS['item_len'] = sb_item_len
+
 CALLBACKS = {'str_of_any': str_of_any, 'signal': cb_signal}
-NOTES = {'comprehension_hook': comprehension}
+NOTES = {'comprehension_hook': comprehension, 'extern_writes': {'load': [], 'peek': [], 'now': []}}
 
 ASSUMPTIONS = [
     'UDPCL/C13: cbor2.dumps of the extension maps the agent builds (a map with small integer keys whose values are '
